@@ -49,6 +49,14 @@ def gen_case(rng, tier):
                     for w in fam[k:]:
                         HX.apply_model(m, w)
                         ops += [w, ("state",), ("regen",)]
+    if rng.random() < 0.15:
+        prior, body = HX.gen_there_and_back(rng)
+        for w in prior:
+            HX.apply_model(m, w)
+            ops += [w, ("state",), ("regen",)]
+        op = ("batch", body, None)
+        HX.apply_model(m, op)
+        ops += [op, ("state",), ("regen",)]
     i = 0
     while i < n:
         r = rng.random()
@@ -131,7 +139,13 @@ def corpus():
               ("del", b"\x00\x11", "meth"), ("state",), ("regen",), ("del", b"\x10\x11", "meth"), ("state",), ("regen",)]
     short_root = [("set", b"\x01", b"v", "meth"), ("state",), ("regen",), ("set", b"\x01", b"w", "meth"), ("state",), ("regen",),
                   ("batch", [("set", b"\x02", b"x", "meth")], None), ("state",), ("regen",), ("del", b"\x01", "meth"), ("del", b"\x02", "meth"), ("state",)]
-    return [d2, shared, short_root]
+    # there and back inside nested blocks: the enclosing block dereferences an existing node, an inner block re-creates it
+    tab = [("set", b"\x01\x01", b"a" * 40, "meth"), ("set", b"\x01\x02", b"b" * 40, "meth"), ("state",), ("regen",),
+           ("batch", [("set", b"\x01\x01", b"z" * 40, "item"), ("batch", [("set", b"\x01\x01", b"a" * 40, "meth")], None),
+                      ("get", b"\x01\x01", "meth")], None), ("state",), ("regen",),
+           ("batch", [("del", b"\x01\x02", "meth"), ("batch", [("set", b"\x01\x02", b"b" * 40, "meth")], None)], None),
+           ("state",), ("regen",), ("get", b"\x01\x01", "meth"), ("get", b"\x01\x02", "meth")]
+    return [d2, shared, short_root, tab]
 
 
 def check(tier, seed):
